@@ -385,6 +385,9 @@ func fixtures() ([]g10bFixture, error) {
 			}
 			g10bFix = append(g10bFix, g10bFixture{era: era, blockType: eraBlockType[era], data: d})
 		}
+		if d := synthDijkstra(); d != nil {
+			g10bFix = append(g10bFix, g10bFixture{era: "dijkstra", blockType: eraBlockType["dijkstra"], data: d})
+		}
 	})
 	return g10bFix, g10bFixErr
 }
@@ -401,3 +404,57 @@ func fixtureOf(era string) *g10bFixture {
 	}
 	return nil
 }
+
+// synthDijkstra builds a Dijkstra-layout block WITH transactions (the only real
+// Dijkstra fixture has none): the real Dijkstra header, and the Conway fixture's
+// transactions regrouped as [body, witness set, aux/null] triples inside
+// [invalid_transactions(null), transactions, null, null]. Body-hash validation
+// is off wherever it is used (C07/C01 decode with SkipBodyHashValidation).
+func synthDijkstra() []byte {
+	var dj, cw *cnode
+	for i := range g10bFix {
+		n, err := parseCborAll(g10bFix[i].data)
+		if err != nil {
+			return nil
+		}
+		switch g10bFix[i].era {
+		case "dijkstra":
+			dj = n
+		case "conway":
+			cw = n
+		}
+	}
+	if dj == nil || cw == nil || len(dj.kids) != 2 || len(cw.kids) < 4 {
+		return nil
+	}
+	null := func() *cnode { return &cnode{major: 7, payload: []byte{0xf6}} }
+	build := func(idx []int) []byte {
+		txs := &cnode{major: 4}
+		for _, i := range idx {
+			aux := cw.kids[3].mapGet(uint64(i))
+			if aux == nil {
+				aux = null()
+			}
+			txs.kids = append(txs.kids, &cnode{major: 4, kids: []*cnode{cw.kids[1].kids[i], cw.kids[2].kids[i], aux}})
+		}
+		body := &cnode{major: 4, kids: []*cnode{null(), txs, null(), null()}}
+		blk := &cnode{major: 4, kids: []*cnode{dj.kids[0], body}}
+		return blk.bytes()
+	}
+	// keep the Conway transactions the Dijkstra decoder accepts (e.g. it rejects list-encoded redeemers)
+	var good []int
+	for i := range cw.kids[1].kids {
+		if synthDijkstraAccepts != nil && !synthDijkstraAccepts(build([]int{i})) {
+			continue
+		}
+		good = append(good, i)
+	}
+	if len(good) == 0 {
+		return nil
+	}
+	return build(good)
+}
+
+// synthDijkstraAccepts is set by c07.go (it needs the ledger package): does the
+// Dijkstra era decoder accept this block (body-hash validation off)?
+var synthDijkstraAccepts func([]byte) bool
